@@ -48,7 +48,8 @@ func (m *Machine) unop(fr *frame, x *ssa.UnOp) Val {
 		}
 		return e
 	}
-	panic(fmt.Sprintf("unop %s on %T", x.Op, v))
+	m.unmodelled("unary %s on %T in %s", x.Op, v, fr.fn)
+	return nil
 }
 
 func (m *Machine) binop(op token.Token, xt types.Type, a, b Val, yt types.Type) Val {
@@ -56,7 +57,7 @@ func (m *Machine) binop(op token.Token, xt types.Type, a, b Val, yt types.Type) 
 	case *Term:
 		y, ok := b.(*Term)
 		if !ok {
-			panic(fmt.Sprintf("binop %s: %T vs %T", op, a, b))
+			m.unmodelled("binary %s on %T and %T", op, a, b)
 		}
 		if x.W == 0 {
 			switch op {
@@ -123,7 +124,8 @@ func (m *Machine) binop(op token.Token, xt types.Type, a, b Val, yt types.Type) 
 	case token.NEQ:
 		return Not(valEq(a, b))
 	}
-	panic(fmt.Sprintf("binop %s on %T", op, a))
+	m.unmodelled("binary %s on %T", op, a)
+	return nil
 }
 
 // strCmp builds lexicographic byte order as a term.
